@@ -163,6 +163,17 @@ PROPS = {
                      "known defects are attributed only when E' equals a defect-aware twin; see known_findings.json"],
         floors=(200_000, 8_000, 6_000_000, 250_000),
     ),
+    "C09": simple(
+        rule="case = (list of 200-800 mixed network + cosmetic rules incl. fusable clusters, many generic class/id rules and per-host cosmetic "
+             "rules so that every hash container holds many entries; debug, optimise and permission flags). events = serialized byte strings: "
+             "(a) two independent builds in one process; (b) 3 (thorough 6) child processes rebuilding the same case and printing length + "
+             "128-bit digest; (c) serialize(deserialize(b)) == b into engines created with either optimise flag, again after a use_tags round "
+             "trip, and with a non-empty tag set on both sides; repeated serialize. non-trivial = largest rule list has >= 8 buckets (measured "
+             "through the H4 walker); distinct = buffer digest. Thorough adds the 86k-line corpus lists (MB-sized buffers) x 4 flag "
+             "combinations x 6 children.",
+        assumptions=["byte equality is between artefacts of the same build of the crate"],
+        floors=(20_000, 1_500, 250_000, 20_000),
+    ),
 }
 
 # ---------------------------------------------------------------------------------------------
@@ -236,6 +247,14 @@ MANIFEST_TEXT = {
         "note": "Two recorded defects (removeparam rules and scriptlet permission masks are not serialized) are recognised by defect-aware twins; anything else alarms.",
         "technique": "runtime monitoring: round-trip differential twins + field-level comparison through a walker hook",
         "design_ref": "DESIGN.md §4.8",
+    },
+    "C09": {
+        "text": "Runtime monitor over recorded byte strings: the same rule sequence is built and serialized repeatedly in one process and in fresh "
+                "child processes (fresh hash seeds) and the buffers must be one value; a loaded buffer must re-serialize to itself, also after tag "
+                "round trips. Lists are sized so that every hash container has many entries, which is measured through a walker hook.",
+        "note": "Hash-seed diversity comes from std's per-process/per-map RandomState; digest is a 128-bit non-cryptographic hash computed by the harness.",
+        "technique": "runtime monitoring: determinism / fixpoint checks over serialized outputs across processes",
+        "design_ref": "DESIGN.md §4.9",
     },
 }
 
